@@ -1,6 +1,7 @@
 package simcheck
 
 import (
+	"strings"
 	"errors"
 	"fmt"
 
@@ -26,6 +27,7 @@ type c11Scope struct {
 	Isolated  bool  `json:"isolated,omitempty"`
 	FailEvent int   `json:"fail_event,omitempty"` // 0 none; else a listener returns an error on this event (index into c11Events, 1-based)
 	Tasks     int   `json:"tasks"`                // tasks added to the scope before the actors start
+	Reenter   int   `json:"reenter,omitempty"`    // 0 none; else the listener of this event (1-based) calls Close on its own scope again, from inside the running Close
 }
 
 type c11Act struct {
@@ -69,6 +71,9 @@ func c11Gen(r *Rand, tier string) interface{} {
 		}
 		if r.Chance(1, 6) {
 			sc.FailEvent = 1 + r.Intn(len(c11Events))
+		}
+		if r.Chance(1, 8) {
+			sc.Reenter = 1 + r.Intn(len(c11Events))
 		}
 		in.Scopes = append(in.Scopes, sc)
 	}
@@ -149,6 +154,7 @@ func c11Run(inI interface{}, env *Env) *Failure {
 	var finalErrs [][]error
 	var finalDone []bool
 	var doubleClose string
+	var reentered []string
 	res := env.Sim(SimOpts{MaxSteps: 60000, FairSteps: 30000}, func() {
 		index := map[app.Scope]int{}
 		for i, sc := range in.Scopes {
@@ -173,6 +179,22 @@ func c11Run(inI interface{}, env *Env) *Failure {
 						return nil // an event of a descendant travelling through the parent's listeners
 					}
 					rec(c11Rec{kind: "event", scope: i, ev: e})
+					if sc.Reenter == e+1 {
+						// closing twice is refused loudly - also when the second Close comes from
+						// inside the first (a listener); a hang here ends the run as a deadlock
+						func() {
+							defer func() {
+								if p := recover(); p != nil {
+									if simrt.IsAbort(p) {
+										panic(p)
+									}
+									reentered = append(reentered, fmt.Sprintf("s%d/%s: refused", i, c11EventNames[e]))
+								}
+							}()
+							_ = scopes[i].Close()
+							reentered = append(reentered, fmt.Sprintf("s%d/%s: ACCEPTED", i, c11EventNames[e]))
+						}()
+					}
 					if sc.FailEvent == e+1 {
 						rec(c11Rec{kind: "err-invoke", scope: i})
 						return &c11ListenerErr{fmt.Sprintf("listener of s%d fails on %s", i, c11EventNames[e])}
@@ -274,6 +296,14 @@ func c11Run(inI interface{}, env *Env) *Failure {
 	}
 	if post != nil {
 		return post
+	}
+	for _, r := range reentered {
+		if strings.HasSuffix(r, "ACCEPTED") {
+			return failf("C11/double-close", "re-entrant", "a Close issued from inside the running Close of the same scope (listener) returned instead of being refused loudly: %v", reentered)
+		}
+	}
+	if len(reentered) > 0 {
+		env.CountN("probe.close-from-inside-a-close-listener-refused", len(reentered))
 	}
 	if doubleClose != "refused" {
 		return failf("C11/double-close", doubleClose, "a second Close of a closed scope was %s instead of being refused loudly", doubleClose)
@@ -479,6 +509,11 @@ func c11Shrink(inI interface{}) []interface{} {
 		if sc.FailEvent != 0 {
 			c := cp()
 			c.Scopes[s].FailEvent = 0
+			out = append(out, c)
+		}
+		if sc.Reenter != 0 {
+			c := cp()
+			c.Scopes[s].Reenter = 0
 			out = append(out, c)
 		}
 		if sc.Isolated {
